@@ -49,6 +49,9 @@ EVENTS = [
     ('SELECT-INBOX', lambda t: [b'SELECT INBOX']),
     ('B:APPEND-INBOX', lambda t: [b'APPEND INBOX ' + lit(body(t))]),
     ('B:MOVE1-INBOX(from a)', lambda t: [b'MOVE 1 INBOX']),
+    # the newest message of a: after MOVE1-a that is the message which came
+    # from INBOX and now goes back (same file, same maildir key)
+    ('B:MOVElast-INBOX(from a)', lambda t: [b'NOOP', b'MOVE * INBOX']),
 ]
 
 
@@ -56,12 +59,14 @@ class Monitor:
     def __init__(self) -> None:
         self.assigned: dict = {}      # (name, uv) -> {uid: token}
         self.uidnext: dict = {}       # (name, uv) -> last reported UIDNEXT
+        self.gone: dict = {}          # (name, uv) -> UIDs seen, then absent
         self.problems: list = []
 
     def key(self):
         return tuple(sorted((k, tuple(sorted(v.items())))
                             for k, v in self.assigned.items())), \
-            tuple(sorted(self.uidnext.items()))
+            tuple(sorted(self.uidnext.items())), \
+            tuple(sorted((k, tuple(sorted(v))) for k, v in self.gone.items()))
 
     def rename(self, a, b):
         for (nm, uv) in list(self.assigned):
@@ -69,6 +74,8 @@ class Monitor:
                 self.assigned[(b, uv)] = self.assigned.pop((nm, uv))
                 if (nm, uv) in self.uidnext:
                     self.uidnext[(b, uv)] = self.uidnext.pop((nm, uv))
+                if (nm, uv) in self.gone:
+                    self.gone[(b, uv)] = self.gone.pop((nm, uv))
 
     def observe(self, dump, where):
         for name, ent in dump.items():
@@ -79,6 +86,16 @@ class Monitor:
             known = self.assigned.setdefault(k, {})
             mx = max(known) if known else 0
             prev_next = self.uidnext.get(k)
+            gone = self.gone.setdefault(k, set())
+            present = {u for u, _ in rows}
+            for uid in present & gone:
+                self.problems.append((
+                    'uid-resurrected', where,
+                    f'{name} UIDVALIDITY {uv}: UID {uid} had disappeared '
+                    f'(expunged or moved away) and denotes a message again: '
+                    f'{sorted(rows)}'))
+            gone -= present
+            gone |= set(known) - present
             for uid, tok in sorted(rows):
                 if uid in known:
                     if known[uid] != tok:
@@ -554,7 +571,8 @@ def _run(*, tier, seed, jobs, progress, opts):
         plans = [(opts.get('kind', 'dict'), bool(int(opts.get('two', 0))),
                   int(opts['depth']))]
     elif tier == 'quick':
-        plans = [('dict', False, 3), ('dict', True, 3), ('++', False, 2)]
+        plans = [('dict', False, 3), ('dict', True, 3), ('++', False, 2),
+                 ('++', True, 2)]
     else:
         plans = [('dict', False, 4), ('dict', True, 4), ('++', False, 3),
                  ('fs', False, 3), ('++', True, 2)]
